@@ -48,3 +48,39 @@ Print Assumptions C11_table_conservative.
 Theorem C11_no_extension_is_default : forall src, ParseTreeX gfm_none src = ParseTree src.
 Proof. exact none_is_default. Qed.
 Print Assumptions C11_no_extension_is_default.
+
+(* ---------------- the same for the models of the other extension parsers (each on top of the
+   default parser; compared with goldmark on every run: case kinds ParseTreeFn / ConvertFn,
+   ParseTreeTD / ConvertTD).  For EVERY source:
+   - Footnote: a source in which no '[' is directly followed by '^' gets the tree of the default
+     parser (the inline parser's '!' case gets as far as looking for the closing bracket, but no
+     definition exists, so it declines and the driver restores the reader);
+   - DefinitionList: without ':' the switch does not matter;
+   - Typographer: without the bytes 39 34 45 46 60 62 (apostrophe, double quote, hyphen, full
+     stop, angle brackets) and 44 (comma) the switch does not matter.  For the six
+     bytes of the property text alone the TREES differ - the parser is also registered on ',' and
+     that registration makes the inline loop flush the text before a comma into a node of its
+     own (the source a,b: two Text nodes instead of one) - while the rendering is the same; the witness is
+     the second theorem, and the rendering is what the with/without runs compare;
+   - with both switches off the model is the model of the default parser. *)
+Require Import GM.model.FootnoteI GM.proofs.FootnoteConservative.
+Theorem C11_footnote_conservative : forall src, bytes_ok src -> no_fn_marker src = true -> ParseTreeFn src = ParseTree src.
+Proof. exact footnote_conservative. Qed.
+Print Assumptions C11_footnote_conservative.
+Require Import GM.model.TypoDefParse GM.model.TypoDefI GM.proofs.TypoDefConservative.
+Theorem C11_deflist_conservative : forall tc src, bytes_ok src -> lacks_all [58%N] src ->
+  ParseTreeTD (with_deflist tc true) src = ParseTreeTD (with_deflist tc false) src.
+Proof. exact deflist_conservative. Qed.
+Print Assumptions C11_deflist_conservative.
+Theorem C11_typographer_conservative_partial : forall tc src, lacks_all [39; 34; 44; 45; 46; 60; 62]%N src ->
+  ParseTreeTD (with_typo tc true) src = ParseTreeTD (with_typo tc false) src.
+Proof. exact typographer_conservative_comma. Qed.
+Print Assumptions C11_typographer_conservative_partial.
+Theorem C11_typographer_tree_at_comma_refuted :
+  bytes_ok [97; 44; 98]%N /\ lacks_all [39; 34; 45; 46; 60; 62]%N [97; 44; 98]%N /\
+  forall tc, ParseTreeTD (with_typo tc true) [97; 44; 98]%N <> ParseTreeTD (with_typo tc false) [97; 44; 98]%N.
+Proof. exact typographer_conservative_counterexample. Qed.
+Print Assumptions C11_typographer_tree_at_comma_refuted.
+Theorem C11_typodef_none_is_default : forall src, ParseTreeTD td_none src = ParseTree src.
+Proof. exact typodef_none_is_default. Qed.
+Print Assumptions C11_typodef_none_is_default.
